@@ -155,6 +155,11 @@ class Kinds:
         pred = None
         if t[0] == 'sub' and t[2] == ('c', 0) and is_call(t[1], *WHERE_LIKE) and len(t[1][2]) == 1:
             pred = t[1][2][0]
+        elif t[0] == 'sub' and t[2] == ('c', 0) and t[1][0] == 'call' and t[1][1][0] == 'attr' and t[1][1][2] == 'nonzero' \
+                and not t[1][2]:
+            pred = t[1][1][1]           # (pred).nonzero()[0] / asarray(pred).nonzero()[0]
+            if is_call(pred, 'numpy.asarray', 'numpy.array') and len(pred[2]) == 1:
+                pred = pred[2][0]
         elif is_call(t, *FLAT_WHERE) and len(t[2]) == 1:
             pred = t[2][0]
         elif t[0] == 'comp' and t[1] == 'list' and len(t[3]) == 1:
